@@ -124,6 +124,34 @@ theorem Tiles.within {bs : Int} : ∀ {l : List (Int × Int)} {a stop : Int}, Ti
     · have := Tiles.within h4 c hc
       omega
 
+/-- the first chunk starts at `a`, the last one ends at `stop` -/
+theorem Tiles.head {bs : Int} {l : List (Int × Int)} {a stop : Int} (h : Tiles bs a stop l) (hne : l ≠ []) :
+    (l.head hne).1 = a := by
+  cases l with
+  | nil => exact absurd rfl hne
+  | cons d r => exact h.1
+
+theorem Tiles.last {bs : Int} : ∀ {l : List (Int × Int)} {a stop : Int}, Tiles bs a stop l → (hne : l ≠ []) →
+    (l.getLast hne).2 = stop
+  | [], _, _, _, hne => absurd rfl hne
+  | [d], a, stop, ht, _ => by
+    obtain ⟨h1, h2, h3, _, h4⟩ := ht
+    simp only [Tiles] at h4
+    simp only [List.getLast_singleton]; omega
+  | d :: e :: r, a, stop, ht, _ => by
+    rw [List.getLast_cons (by simp)]
+    exact Tiles.last ht.2.2.2.2 (by simp)
+
+/-- each chunk starts right after the previous one -/
+theorem Tiles.consecutive {bs : Int} : ∀ {l : List (Int × Int)} {a stop : Int}, Tiles bs a stop l →
+    ∀ k (h : k + 1 < l.length), (l[k + 1]).1 = (l[k]).2 + 1
+  | [], _, _, _, k, h => by simp at h
+  | [d], _, _, _, k, h => by simp at h
+  | d :: e :: r, a, stop, ht, k, h => by
+    cases k with
+    | zero => exact ht.2.2.2.2.1
+    | succ k => exact Tiles.consecutive ht.2.2.2.2 k (by simpa using h)
+
 /-- total size of a tiling = size of the tiled range -/
 theorem Tiles.sum {bs : Int} : ∀ {l : List (Int × Int)} {a stop : Int}, Tiles bs a stop l →
     sumInts (l.map (fun c => c.2 - c.1 + 1)) = stop - a + 1
@@ -194,7 +222,7 @@ theorem gap_range (bs : Int) (hbs : 1 ≤ bs) :
     have h0 : gapChunk len bs 0 = bs := by simp [gapChunk]; omega
     rw [hm]
     constructor
-    · simp only [List.map_cons, sumInts, ih1, h0]; omega
+    · simp only [sumInts, ih1, h0]; omega
     · intro c hc
       rcases List.mem_cons.mp hc with rfl | hc
       · omega
